@@ -37,6 +37,11 @@ CLAIMS = {
    text="Decides structural necessary conditions of total, exact decoding for EVERY byte string (what no finite sample of packets can): no Next(n) without a dominating proof that n bytes remain; the record loop cannot iterate without progress; no decode-path error is dropped; the element decoder never reads a nil value; no explicit panic reachable from decodePacket; allocation sizes bounded by <=16-bit wire values/configuration; the wire set length bounds the set body. These rules found five genuine defects (now fixed). Agreement of decoded values with a reference parser and wall-clock promptness are not decided.",
    note="Trusted: bytes.Buffer/bufio/encoding/binary; width agreement decoder<->template is C15's obligation.",
    ref="DESIGN.md §5 C03, §6 #1-#5"),
+ "C09": dict(
+   technique="gate/dominance rules on go/ssa (range-loop element identity, guard sets, normalised size comparison, err==nil branch facts), who-may-call for conn.Write, error-propagation path rule, sibling rule over the encoder's raw copies",
+   text="Decides that no send can bypass the checks: every record of a data set passes the sanity check before any Write (the check is applied to the range element itself, only the set-type guard may skip it, its error edge only returns); the three sanity tests exist with failing edges returning errors; the size gate accepts exactly lengths <= 65535 and the buffer is allocated on the accepted edge; only the built message is written, only on err == nil; only two write sites exist; templates are registered only after a successful send (defect found and fixed). Fidelity clause: encoder errors must propagate and raw copies must be length-tested - two genuine violations are recorded as known findings (GetBuffer drops encoder errors; MAC copied without a length test).",
+   note="Trusted: net.Conn.Write; entities accessors are the library's. Kernel-level 'nothing transmitted on failure' is not decided.",
+   ref="DESIGN.md §5 C09, §6 #10 #13"),
 }
 NOT_YET = "rules designed (DESIGN.md §5) but not built yet in this round; no claim is made until the check exists"
 props=[json.loads(l) for l in open('/verif/properties.jsonl')]
